@@ -136,6 +136,15 @@ CLAIMS = {
         "visible in Q is a property of the whole wired graph under a given layout.",
    technique="CFG/guard-chain checks on the network-id and relay-reuse code + structural check of the conflict-graph construction",
    ref="DESIGN.md §2 C12"),
+ "C01": dict(
+   text="Static analysis of clauses (a)-(d): the precedence ladder and associativity are computed from the compiled grammar and compared with the documented strict order between operator "
+        "literals (rule names are irrelevant); the transformer's nesting (left-nested chains, right-nested power, unary, and/or normalisation); agreement of the operator tables (grammar, "
+        "analyzer, lowerer, DSL->Factorio map) and dispatch; operand order from the AST through builder, IR, placement keys to the first/second slots of the emitted combinator; the builder "
+        "terms of && / || are extracted per path and evaluated in the checker's own combinator algebra over {-2..2}^2 against the documented truth value; chain folding only over one operator; "
+        "the result-type decision table; spanning-tree colour keys never replace a logical edge's colour. NOT decided: clause (e) — that the wiring delivers each operand alone on the colour "
+        "the combinator reads, constant inlining, settling for every input.",
+   technique="grammar-model ladder check + table agreement + def-use operand-order trace + extracted-term evaluation in a small algebra",
+   ref="DESIGN.md §2 C01"),
 }
 NA_DEFAULT = "check not built yet (build phase in progress); see DESIGN.md for the planned rules"
 NA = {}
